@@ -63,15 +63,20 @@ ResolveFrom(t, i, op, lt, rt) ==
 Resolve(t, op, lt, rt) == ResolveFrom(t, 1, op, lt, rt)
 
 (* occurrences: source, operator, static operand types *)
+Occ(src, op, l, r) == [src |-> src, op |-> op, l |-> l, r |-> r]
+IJ   == Occ("I + J", "+", "int", "int")
+FG   == Occ("F + G", "+", "float64", "float64")
+ST   == Occ("S + T", "+", "string", "string")
+IF_  == Occ("I + F", "+", "int", "float64")
+IeJ  == Occ("I == J", "==", "int", "int")
+SeT  == Occ("S == T", "==", "string", "string")
+ImJ  == Occ("I - J", "-", "int", "int")          \* an operator no table names
+(* expressions: one occurrence, or several side by side in an array literal - each occurrence is resolved *)
+(* on its own, whatever the operators and operand types of the occurrences walked before it              *)
 ExprSeq ==
-  <<[src |-> "I + J", op |-> "+", l |-> "int", r |-> "int"],
-   [src |-> "F + G", op |-> "+", l |-> "float64", r |-> "float64"],
-   [src |-> "S + T", op |-> "+", l |-> "string", r |-> "string"],
-   [src |-> "I + F", op |-> "+", l |-> "int", r |-> "float64"],
-   [src |-> "I == J", op |-> "==", l |-> "int", r |-> "int"],
-   [src |-> "S == T", op |-> "==", l |-> "string", r |-> "string"],
-   [src |-> "I - J", op |-> "-", l |-> "int", r |-> "int"]>>      \* an operator no table names
-Exprs == {ExprSeq[i] : i \in 1..Len(ExprSeq)}
+  <<<<IJ>>, <<FG>>, <<ST>>, <<IF_>>, <<IeJ>>, <<SeT>>, <<ImJ>>,
+    <<IeJ, IJ>>, <<IJ, IeJ>>, <<SeT, ST>>, <<ImJ, IJ, IeJ>>, <<FG, IJ, ST>>>>
+Exprs == UNION {{ExprSeq[i][k] : k \in 1..Len(ExprSeq[i])} : i \in 1..Len(ExprSeq)}
 
 Init == tab = <<>>
 Next == /\ Len(tab) < MaxEntries
@@ -91,8 +96,9 @@ Spec == Init /\ [][Next]_tab
 
 TableCase ==
   [entries |-> tab, valid |-> Valid(tab),
-   exprs |-> IF Valid(tab)
-             THEN [i \in 1..Len(ExprSeq) |-> [src |-> ExprSeq[i].src, fn |-> Resolve(tab, ExprSeq[i].op, ExprSeq[i].l, ExprSeq[i].r)]]
-             ELSE [i \in 1..Len(ExprSeq) |-> [src |-> ExprSeq[i].src, fn |-> ""]]]
+   exprs |-> [i \in 1..Len(ExprSeq) |->
+               [occs |-> [k \in 1..Len(ExprSeq[i]) |->
+                            LET e == ExprSeq[i][k]
+                            IN [src |-> e.src, fn |-> IF Valid(tab) THEN Resolve(tab, e.op, e.l, e.r) ELSE ""]]]]]
 EmitTable == (Len(tab) >= 1 /\ OpEmit = "cases") => PrintT(ToJson(TableCase))
 =============================================================================
